@@ -35,8 +35,19 @@
 (* decoder, magic never compared): kept so that TLC reproduces the            *)
 (* counterexample (HandshakeAdvLegacy.cfg must FAIL ClientSafe).              *)
 (*                                                                            *)
-(* A case is c = [cli, srv, k, qf, fl]; every decision is an operator of the   *)
-(* case (and of the message), the run below applies them step by step and     *)
+(* What the initiator PROPOSED is what its ProposeVersions message held, not   *)
+(* what it was configured with: snt is the set of versions on the wire, a     *)
+(* subset of the configured table cli (their data as configured).  The honest *)
+(* runs of C18 have snt = Dom(cli) ("the proposal is the table" is C18's      *)
+(* statement); for C19 every subset is a case (SentSpace), and every decision *)
+(* about a reply is taken on snt: a configured version that was not sent is   *)
+(* as unproposed as one that was never configured (SentDecides).              *)
+(* ClientDesign = "configured" is the design that checks an accept against    *)
+(* the configured table whatever was sent: HandshakeAdvConfigured.cfg must    *)
+(* FAIL ClientSafe.                                                           *)
+(*                                                                            *)
+(* A case is c = [cli, snt, srv, k, qf, fl]; every decision is an operator of *)
+(* the case (and of the message), the run below applies them step by step and *)
 (* the invariants are evaluated on its states.  Every run (case + reply +     *)
 (* expected result of both endpoints) is written to rows.ndjson once; the Go  *)
 (* drivers replay the rows on the real code.                                  *)
@@ -52,7 +63,9 @@ CONSTANTS W,              \* window size
           FlagSpace,      \* admissible flag records
           FlagsInModel,   \* TRUE: the replay takes the flags from the row; FALSE: it draws them (seeded)
           Responder,      \* "honest" | "adversary"
-          ClientDesign    \* "fixed" | "legacy"
+          ClientDesign,   \* "fixed" | "legacy" | "configured"
+          SentSpace       \* which sets of versions the initiator may have put on the wire:
+                          \* "configured" (exactly its table) | "subsets" (any subset of it) | "proper" (any but the whole)
 
 VARIABLES c,           \* the case
           cpc, spc,    \* "propose" | "confirm" | "done"
@@ -78,10 +91,21 @@ HonestQ  == {<<0, FALSE>>} \cup {<<t, TRUE>> : t \in 1..(W + 1)}
 NoQ      == {<<0, FALSE>>}
 AdvQ     == (1..(W + 1)) \X BOOLEAN
 
-Cases == {[cli |-> a, srv |-> b, k |-> q[1], qf |-> q[2], fl |-> f] :
-            a \in Tables(CliMagics, CliPerVersion),
-            b \in (IF Responder = "honest" THEN Tables(SrvMagics, SrvPerVersion) ELSE {NoTab}),
-            q \in QCases, f \in FlagSpace}
+\* the sets of versions an initiator configured with table t may have sent
+SentSets(t) == CASE SentSpace = "configured" -> {Dom(t)}
+                 [] SentSpace = "subsets"    -> SUBSET Dom(t)
+                 [] SentSpace = "proper"     -> (SUBSET Dom(t)) \ {Dom(t)}
+\* the specified initiator proposes its table: the honest runs (C18) do not vary what is sent
+ASSUME SentSpace \in {"configured", "subsets", "proper"} /\ (Responder = "honest" => SentSpace = "configured")
+
+Cases == UNION {{[cli |-> a, snt |-> s, srv |-> b, k |-> q[1], qf |-> q[2], fl |-> f] :
+                   s \in SentSets(a),
+                   b \in (IF Responder = "honest" THEN Tables(SrvMagics, SrvPerVersion) ELSE {NoTab}),
+                   q \in QCases, f \in FlagSpace} :
+                a \in Tables(CliMagics, CliPerVersion)}
+
+\* the table in the ProposeVersions message
+Wire(x) == [v \in Vers |-> IF v \in x.snt THEN x.cli[v] ELSE 0]
 
 Format(x, v) == IF v = Foreign THEN "X" ELSE IF v = Unknown THEN "none"
                 ELSE IF x.k # 0 /\ v >= x.k THEN "B" ELSE "A"
@@ -99,8 +123,8 @@ CliData(x, v) == [format |-> Format(x, v), magic |-> x.cli[v], d |-> x.fl.cd, p 
 SrvData(x, v) == [format |-> Format(x, v), magic |-> x.srv[v], d |-> x.fl.sd, p |-> x.fl.sp, q |-> x.fl.sq]
 
 \* the query flag reaches the responder iff some proposed version carries it
-Asked(x)  == x.qf /\ x.k # 0 /\ \E v \in Dom(x.cli) : v >= x.k
-Common(x) == Dom(x.cli) \cap Dom(x.srv)
+Asked(x)  == x.qf /\ x.k # 0 /\ \E v \in x.snt : v >= x.k
+Common(x) == x.snt \cap Dom(x.srv)
 Best(x)   == Max(Common(x))
 
 --------------------------------------------------------------------------
@@ -132,17 +156,22 @@ Replies(x) == IF Responder = "honest" THEN {HonestReply(x)} ELSE AdvReplies
 
 WellFormed(x, dt, v) == Known(v) /\ dt.format = Format(x, v)
 AcceptOk(x, m) ==
-    IF ClientDesign = "fixed"
-    THEN /\ m.v \in Dom(x.cli)
-         /\ WellFormed(x, m.data, m.v)
-         /\ m.data.magic = x.cli[m.v]
-    ELSE WellFormed(x, m.data, m.v)          \* legacy: the decoder of m.v accepts the data
+    CASE ClientDesign = "fixed" ->
+            /\ m.v \in x.snt                  \* proposed = on the wire
+            /\ WellFormed(x, m.data, m.v)
+            /\ m.data.magic = x.cli[m.v]
+      [] ClientDesign = "configured" ->      \* defective: looks the version up in its configuration, whatever it sent
+            /\ m.v \in Dom(x.cli)
+            /\ WellFormed(x, m.data, m.v)
+            /\ m.data.magic = x.cli[m.v]
+      [] ClientDesign = "legacy" -> WellFormed(x, m.data, m.v)   \* the decoder of m.v accepts the data
 
 \* why an accept must not be taken (for the keys of the replay's reports)
 Why(x, m) ==
     IF m.t # "accept" THEN {}
     ELSE (IF ~Known(m.v) THEN {"unknown"} ELSE {})
          \cup (IF Known(m.v) /\ m.v \notin Dom(x.cli) THEN {"unproposed"} ELSE {})
+         \cup (IF m.v \in Dom(x.cli) /\ m.v \notin x.snt THEN {"unsent"} ELSE {})   \* configured, but not on the wire
          \cup (IF Known(m.v) /\ m.data.format # Format(x, m.v) THEN {"format"} ELSE {})
          \cup (IF m.v \in Dom(x.cli) /\ m.data.format \in {"A", "B", "X"} /\ m.data.magic # x.cli[m.v]
                THEN {"magic"} ELSE {})
@@ -162,7 +191,7 @@ Init == /\ c \in Cases
 
 ClientPropose == /\ cpc = "propose"
                  /\ cpc' = "confirm"
-                 /\ net' = Msg("propose", 0, "", <<>>, c.cli, NoData)
+                 /\ net' = Msg("propose", 0, "", <<>>, Wire(c), NoData)
                  /\ UNCHANGED <<c, spc, cres, sres>>
 
 ServerReply == /\ spc = "propose" /\ net.t = "propose"
@@ -235,16 +264,30 @@ FlagsIrrelevant == HT =>
 (* C19: whatever the responder says *)
 
 ClientSafe == (cres.kind = "ok") =>
-    /\ cres.v \in Dom(c.cli)
+    /\ cres.v \in c.snt                       \* a version it proposed: one that was in its ProposeVersions message
     /\ WellFormed(c, cres.data, cres.v)
     /\ cres.data.magic = c.cli[cres.v]
 
 \* the repaired initiator still takes every acceptance the honest responder could have sent
-ClientComplete == (Terminal /\ net.t = "accept" /\ net.v \in Dom(c.cli)
+ClientComplete == (Terminal /\ net.t = "accept" /\ net.v \in c.snt
                    /\ net.data.format = Format(c, net.v) /\ net.data.magic = c.cli[net.v]) => cres.kind = "ok"
 
 \* a refusal or a query reply never selects a version
 OnlyAcceptSelects == (Terminal /\ net.t # "accept") => cres.kind # "ok"
+
+\* what is on the wire is a part of the configured table, with the configured data
+SentOfConfigured ==
+    /\ c.snt \subseteq Dom(c.cli)
+    /\ net.t = "propose" => (Dom(net.tab) = c.snt /\ \A v \in c.snt : net.tab[v] = c.cli[v])
+
+\* an accept of a version that was not on the wire is a failure, however good its data and whatever the configuration holds
+UnsentNeverSettles == (Terminal /\ net.t = "accept" /\ net.v \notin c.snt) => cres.kind = "error"
+
+\* the verdict is a function of what was sent: the initiator configured with exactly the sent part decides the same
+SentDecides == Terminal => cres = ClientResult([c EXCEPT !.cli = Wire(c)], net)
+
+\* only an acceptance is judged against the proposal: refusals and query replies are reported the same whatever was sent
+SentOnlyJudgesAccepts == (Terminal /\ net.t # "accept") => cres = ClientResult([c EXCEPT !.snt = Dom(c.cli)], net)
 
 TypeOK == /\ cpc \in {"propose", "confirm", "done"} /\ spc \in {"propose", "done"}
           /\ cres.kind \in {"none", "ok", "error", "mismatch", "refused", "decodeerror", "query"}
@@ -258,7 +301,7 @@ TypeOK == /\ cpc \in {"propose", "confirm", "done"} /\ spc \in {"propose", "done
 RowOf(x, m) ==
     LET cr == ClientResult(x, m)
         sr == IF Responder = "honest" THEN HonestSres(x, m) ELSE NoRes
-    IN [mode |-> Responder, cli |-> x.cli, srv |-> x.srv, k |-> x.k, qf |-> x.qf,
+    IN [mode |-> Responder, cli |-> x.cli, snt |-> x.snt, srv |-> x.srv, k |-> x.k, qf |-> x.qf,
         fl |-> <<x.fl.cd, x.fl.cp, x.fl.sd, x.fl.sp, x.fl.sq>>, flmodel |-> FlagsInModel, asked |-> Asked(x),
         reply |-> [t |-> m.t, v |-> m.v, reason |-> m.reason, vs |-> m.vs, tab |-> m.tab,
                    format |-> m.data.format, magic |-> m.data.magic],
@@ -267,7 +310,9 @@ RowOf(x, m) ==
         sres |-> [kind |-> sr.kind, v |-> sr.v]]
 
 Runs == IF Responder = "honest" THEN {<<x, HonestReply(x)>> : x \in Cases} ELSE Cases \X AdvReplies
-EmitRows == LET s == SetToSeq(Runs)
-            IN ndJsonSerialize("rows.ndjson", [i \in 1..Len(s) |-> RowOf(s[i][1], s[i][2])])
-ASSUME ClientDesign = "legacy" \/ EmitRows
+\* the defective designs are only model-checked (they must fail), never replayed
+EmitRows == IF ClientDesign # "fixed" THEN TRUE
+            ELSE LET s == SetToSeq(Runs)
+                 IN ndJsonSerialize("rows.ndjson", [i \in 1..Len(s) |-> RowOf(s[i][1], s[i][2])])
+ASSUME EmitRows
 ==============================================================================
